@@ -29,7 +29,7 @@ pub fn is_empty(path: &PathBuf) -> (b: bool)
 //@ item clean file=src/sys/fs/path.rs fn=clean props=C14,C12,C05,C01,C16
 //@ sig pub fn clean<T: AsRef<Path>>(path: T) -> PathBuf
 //@ rw R3 1 for
-//@ rw R8 1 ⟦path_buf.push(".");⟧ => ⟦path_buf.push(Component::CurDir);⟧
+//@ rw R8 * ⟦path_buf.push(".");⟧ => ⟦path_buf.push(Component::CurDir);⟧
 //@ rw R9 1 ⟦let mut cnt = 0;⟧ => ⟦let mut cnt: usize = 0;⟧
 //@ rw R9 1 ⟦let mut prev = None;⟧ => ⟦let mut prev: Option<Component> = None;⟧
 //@ ins after ⟦let mut path_buf = PathBuf::new();⟧
